@@ -18,3 +18,17 @@ pub open spec fn min182(n: int) -> int { if n <= 182 { n } else { 182 } }
 pub open spec fn k_naddr(kind: u16, author: Seq<u8>, d: Seq<u8>) -> Seq<u8> {
     be16(kind) + author + seq![min182(d.len() as int) as u8] + pad182(d)
 }
+pub open spec fn zeros32() -> Seq<u8> { Seq::new(32, |i: int| 0u8) }
+pub open spec fn ffs32() -> Seq<u8> { Seq::new(32, |i: int| 255u8) }
+pub broadcast proof fn lemma_id_zeros(id: Id)
+    requires forall|i: int| 0 <= i < 32 ==> id.0@[i] == 0u8
+    ensures #[trigger] id_view(id) == zeros32()
+{
+    assert(id_view(id) =~= zeros32());
+}
+pub broadcast proof fn lemma_id_ffs(id: Id)
+    requires forall|i: int| 0 <= i < 32 ==> id.0@[i] == 255u8
+    ensures #[trigger] id_view(id) == ffs32()
+{
+    assert(id_view(id) =~= ffs32());
+}
